@@ -15,7 +15,8 @@ def gen_model(rng, wide=False):
     clzs = []
     decl = []
     for i in range(ncls):
-        pk, cn = rng.choice(PKGS), rng.choice(CLSS)
+        # (one class in eight lives in the default package: its methods are named `.Cls.m`)
+        pk, cn = (rng.choice(PKGS) if rng.random() < 0.87 else ""), rng.choice(CLSS)
         nf = rng.choice([0, 1, 2, 2, 3, 4])
         fns = []
         for j in range(nf):
@@ -32,8 +33,11 @@ def gen_model(rng, wide=False):
                 if r < 0.72 and decl:
                     pk, cn, mn = rng.choice(decl)
                     call = {"Package": pk, "NodeName": cn, "FunctionName": mn}
-                elif r < 0.80:
+                elif r < 0.77:
                     call = {"Package": rng.choice(PKGS), "NodeName": rng.choice(CLSS), "FunctionName": "ext"}
+                elif r < 0.80:
+                    # a receiver whose type was not resolved: a node name without package
+                    call = {"Package": "", "NodeName": rng.choice(["helper", "Svc", "log"]), "FunctionName": rng.choice(["prepare", "a"])}
                 elif r < 0.86:
                     call = {"Package": "java.lang", "NodeName": "", "FunctionName": "x"}
                 elif r < 0.93:
@@ -422,7 +426,7 @@ def make(prop):
     m.oracle = oracle_c03 if prop == "C03" else oracle_c04
     m.nontrivial = lambda c, mo: '" -> "' in (mo.get("dot") or "")
     m.RULE = ("random code models (1-4 classes over 3 packages, 0-4 methods each from a 6-name pool so that duplicates and "
-              "cycles are frequent; calls: 72% declared callee, unresolved, empty NodeName, creations, self calls; a name with a quote); "
+              "cycles are frequent, one class in eight in the default package; calls: 72% declared callee, unresolved, empty NodeName, a node name without package, creations, self calls; a name with a quote); "
               "each shard is ONE process history of consecutive Analysis/AnalysisByFiles/rcall.Analysis calls (C04: also `call -l`, i.e. Analysis with lookup on the target); "
               "non-trivial = the model's graph has at least one edge; distinct = distinct (model, root, options) JSON")
     m.ASSUMPTIONS = ["the implementation agrees with the Lean model outside the sampled inputs",
